@@ -56,23 +56,33 @@ def parse_integer(tname, s):
     if tname in SIGN_RESTRICTED and v == 0 and s[0] in '+-':
         # "-0" for unsigned/nonNegative, "+0" for nonPositive: the editions word the sign rule differently
         raise Unsure('signed-zero-in-sign-restricted-integer')
+    if tname in ('unsignedLong', 'unsignedInt', 'unsignedShort', 'unsignedByte') and s[0] == '+':
+        raise Unsure('plus-sign-on-unsigned')       # 1st ed.: "a finite-length sequence of decimal digits"; 2nd ed.: optional sign
     lo, hi = INT_RANGES[tname]
     if (lo is not None and v < lo) or (hi is not None and v > hi): raise Invalid('integer range')
     return Decimal(v)
+
+def _norm(v):
+    """(sign, digits, exp) with trailing zero digits moved into the exponent -- exact, independent of the decimal context"""
+    sign, digits, exp = v.as_tuple()
+    digits = list(digits)
+    while len(digits) > 1 and digits[-1] == 0: digits.pop(); exp += 1
+    while len(digits) > 1 and digits[0] == 0: digits.pop(0)
+    return sign, tuple(digits), exp
 
 def dec_digits(v):
     """(totalDigits, fractionDigits, unsure_lo) of a Decimal value per 2nd ed. 4.3.11/4.3.12 (erratum E2-44):
     v = i * 10^-n with minimal n; totalDigits = max(len(|i|), n); older wording gives len(|i|): when they differ the facet
     values in between are version-dependent."""
     if v == 0: return 1, 0, 1
-    sign, digits, exp = v.normalize().as_tuple()
+    sign, digits, exp = _norm(v)
     n = max(0, -exp)
     ilen = len(digits) + (exp if exp > 0 else 0)
     return max(ilen, n), n, ilen
 
 def canon_decimal(v):
     if v == 0: return '0.0'
-    sign, digits, exp = v.normalize().as_tuple()
+    sign, digits, exp = _norm(v)
     ds = ''.join(map(str, digits))
     if exp >= 0: ip, fp = ds + '0' * exp, '0'
     elif -exp >= len(ds): ip, fp = '0', '0' * (-exp - len(ds)) + ds
@@ -322,8 +332,8 @@ def _fmt_sec(s):
     ip = int(s); fr = s - ip
     out = '%02d' % ip
     if fr != 0:
-        f = format(fr.normalize(), 'f')
-        out += f[1:] if f.startswith('0.') else '.' + f.split('.')[1]
+        f = format(fr, 'f').rstrip('0')
+        out += '.' + f.split('.')[1]
     return out
 
 def canon_datetime(v):
@@ -347,11 +357,15 @@ def canon_datetime(v):
 # ------------------------------------------------------------------------------------------------
 # duration
 # ------------------------------------------------------------------------------------------------
-RE_DUR = re.compile(r'(-?)P(?:([0-9]+)Y)?(?:([0-9]+)M)?(?:([0-9]+)D)?(?:(T)(?:([0-9]+)H)?(?:([0-9]+)M)?(?:([0-9]+)(?:\.([0-9]+))?S)?)?\Z')
+RE_DUR = re.compile(r'(-?)P(?:([0-9]+)Y)?(?:([0-9]+)M)?(?:([0-9]+)D)?(?:(T)(?:([0-9]+)H)?(?:([0-9]+)M)?(?:([0-9]*)(?:(\.)([0-9]*))?S)?)?\Z')
 def parse_duration(s):
     m = RE_DUR.match(s)
     if not m: raise Invalid('duration lexical')
-    sg, Y, Mo, D, T, H, Mi, S, F = m.groups()
+    sg, Y, Mo, D, T, H, Mi, S, dot, F = m.groups()
+    if S is not None:
+        if S == '' and not F: raise Invalid('duration seconds without digits')
+        if S == '' or (dot and not F): raise Unsure('duration-seconds-bare-point')     # 1st ed.: any unsigned decimal; 2nd ed.: [0-9]+(\.[0-9]+)?
+        if not dot: F = None
     if Y is None and Mo is None and D is None and H is None and Mi is None and S is None: raise Invalid('duration without fields')
     if T and H is None and Mi is None and S is None: raise Invalid('duration T without time fields')
     for x in (Y, Mo, D, H, Mi, S):
